@@ -49,9 +49,10 @@ ReadsFailing(e) ==
 
 Failing(e) == IF e.kind = "op" THEN OpFailing(e) ELSE ReadsFailing(e)
 
-BadIdx == {i \in 1..N : Failing(Events[i]) # {}}
+F == [i \in 1..N |-> Failing(Events[i])]
+BadIdx == {i \in 1..N : F[i] # {}}
 Bad == UNION {{[i |-> i, c |-> c,
-                d |-> IF Events[i].kind = "op" THEN ToString(ExplainedBy(Events[i])) ELSE ""] : c \in Failing(Events[i])} : i \in BadIdx}
+                d |-> IF Events[i].kind = "op" THEN ToString(ExplainedBy(Events[i])) ELSE ""] : c \in F[i]} : i \in BadIdx}
 Ante == [atomic |-> Cardinality({i \in 1..N : Events[i].kind = "op" /\ Events[i].res # "ok"}),
          duplicate_rule |-> Cardinality({i \in 1..N : Events[i].kind = "op" /\ Events[i].res = "ValueError"}),
          type_rule |-> Cardinality({i \in 1..N : Events[i].kind = "op" /\ Events[i].res = "TypeError"}),
